@@ -210,6 +210,10 @@ def operation_methods(chk, prefix, want):
                     if e.kind == "user" and meth == "run_in_child_context":
                         cc = e.args[0]
                         goal = z3.And(goal, zstr(s.get(cc)["_parent_id"]) == the_id, z3.BoolVal(s.get(cc)["state"] == state and s.get(cc)["_step_counter"] != s.get(ctx)["_step_counter"]))
+                        lg = s.get(cc)["logger"]
+                        if "C17" in want:
+                            ok_l = isinstance(lg, Ref) and getattr(lg.cls, "name", "") == "Logger" and s.get(lg)["_execution_state"] == state and s.get(lg)["_logger"] == s.get(s.get(ctx)["logger"])["_logger"]
+                            chk.prove(f"{prefix}.ctx.child_logger_gated", s.pc, bool(ok_l), desc="a child context's logger is a context Logger bound to the same execution state (so it is silent while replaying) and the same sink")
                     if e.kind == "inner":
                         cc = e.kwargs.get("map_context") or e.kwargs.get("parallel_context")
                         oi = s.get(e.kwargs["operation_identifier"])
@@ -226,3 +230,70 @@ def operation_methods(chk, prefix, want):
                 chk.prove(f"{prefix}.ctx.track_after_op.{meth}", s.pc, g2,
                           desc=f"{meth}: track_replay(operation id) is called exactly once, after the handler returned normally, and not at all when it raised or suspended")
     return None
+
+
+def wait_validation(chk, prefix="C03"):
+    """DurableContext.wait: durations below one second are rejected before an id is taken; the handler receives the duration's seconds (>= 1)"""
+    eng = Engine(hooks=CounterHooks())
+    P = eng.program
+    st = St()
+    ctx, parent, c0, state = make_ctx(eng, st)
+    secs = fresh("int", "seconds")
+    st.assume(secs.t >= 0)
+    dur = st.alloc(P.cls("config.Duration"), {"seconds": secs})
+
+    def process(eng_, s, args, kwargs):
+        s.emit("process", exe=args[0])
+        return [("val", None, s)]
+    eng.summaries["operation.base.OperationExecutor.process"] = process
+    for k, v, s in eng.run(P.func(DC + ".wait"), [ctx, dur], st=st):
+        chk.paths += 1
+        procs = [e for e in s.trace if e.kind == "process"]
+        if procs:
+            goal = z3.And(secs.t >= 1, zint(s.get(procs[0].exe)["seconds"]) == secs.t)
+        else:
+            goal = z3.And(z3.BoolVal(k == "raise" and getattr(getattr(v, "cls", None), "name", "") == "ValidationError" and not [e for e in s.trace if e.kind == "counter"]), secs.t < 1)
+        chk.prove(f"{prefix}.ctx.wait_validates", s.pc, goal, desc="wait(duration): fewer than 1 second is rejected with ValidationError before any id is consumed; otherwise the wait handler gets exactly the duration's seconds (>= 1: the precondition of the wait handler's contract)")
+
+
+def wait_for_callback_order(chk, prefix="C14"):
+    """wait_for_callback_handler: create the callback, run the submitter in a step with the callback id, then await the result"""
+    eng = Engine(hooks=CtxHooks())
+    P = eng.program
+    st = St()
+    q = "operation.callback.wait_for_callback_handler"
+    chk.function(q)
+    cb = st.alloc("opaque:Callback", {"callback_id": fresh("str", "callback_id")})
+
+    class H(CtxHooks):
+        def opaque_call(self, eng_, s, fn, args, kwargs):
+            n = fn.name
+            if n == "DurableContext.create_callback":
+                s.emit("create_callback", kwargs=dict(kwargs))
+                return [("val", cb, s)]
+            if n == "DurableContext.step":
+                s.emit("step", kwargs=dict(kwargs))
+                # the step runs the submitter function it was given
+                sc = s.alloc(P.cls("types.StepContext"), {"logger": s.alloc("opaque:stdlogger", {})})
+                out = []
+                for k, v, s2 in eng_.call_value(kwargs.get("func"), [sc], {}, s):
+                    out.append((k, v, s2))
+                return out
+            if n == "Callback.result":
+                s.emit("result")
+                return [("val", fresh("any", "callback_result"), s)]
+            if n == "submitter":
+                s.emit("submitter", args=tuple(args))
+                return [("val", None, s)]
+            return CtxHooks.opaque_call(self, eng_, s, fn, args, kwargs)
+    eng.hooks = H()
+    ctx = st.alloc("opaque:DurableContext", {})
+    for k, v, s in eng.run(P.func(q), [ctx, OpaqueFn("submitter"), eng.sym_of_type("str | None", "name", st), None], st=st):
+        chk.paths += 1
+        kinds = [e.kind for e in s.trace]
+        sub = [e for e in s.trace if e.kind == "submitter"]
+        ok = k == "val" and kinds == ["create_callback", "step", "submitter", "result"]
+        goal = z3.BoolVal(ok)
+        if ok:
+            goal = z3.And(goal, ops.values_equal(s, sub[0].args[0], s.get(cb)["callback_id"]))
+        chk.prove(f"{prefix}.wfcb.order", s.pc, goal, desc="wait_for_callback: create the callback -> submitter step (receives the callback id) -> result(), each through its own contract")
